@@ -29,5 +29,5 @@ RangeLocked == \A o \in 1..Len(E.outputs) : LET v == st.outval[o] var == E.outpu
 \* an integral defuzzifier returns a point of the range
 IntegralInRange == \A o \in 1..Len(E.outputs) : LET var == E.outputs[o] raw == RawValue(E, st, o) IN
                  (k > 0 /\ var.enabled /\ var.defuzzifier.cls \in IntegralDefuzzifiers /\ Good(raw) /\ ~IsNaN(raw)) => (Ge(raw, var.min) /\ Le(raw, var.max))
-EmitInv == k > 0 => PrintT(ToJson([cid |-> cid, k |-> k, obs |-> Observe(E, st)]))
+EmitInv == k > 0 => PrintT(ToJson([cid |-> Cases[cid].id, k |-> k, obs |-> Observe(E, st)]))
 =============================================================================
